@@ -199,3 +199,214 @@ func runU2(c *core.Ctx) {
 		})
 	}
 }
+
+// U3: one index, one domain. Node-level operations take logical child indexes (soft-deleted
+// slots skipped: nodeAt/pairAt translate them); linkedNodes/linkedPairs methods take physical
+// slot numbers. A Node method that hands the same parameter both to a logical consumer and to
+// a physical-slot method, without the guard that the two lengths are equal, mixes the domains.
+
+func init() {
+	register(&core.Rule{ID: "U3", Min: 6,
+		Doc: "Index domains in package ast: int parameters of ast.Node methods that reach nodeAt/pairAt (directly or through other Node methods, fixpoint) are logical child indexes; such a parameter is passed to a physical-slot method of linkedNodes/linkedPairs (At, Unset, Set, MoveOne, Swap, ...) only in functions that compare the container's Len() with the node's len() (the no-holes guard / translation loop). Otherwise the wrong slot is touched once a soft-deleted slot precedes the target.",
+		Run: runU3})
+}
+
+func runU3(c *core.Ctx) {
+	p := c.Prog
+	pk := p.Pkg("ast")
+	if pk == nil {
+		c.Undecided("ast", token.NoPos, "package not loaded")
+		return
+	}
+	named := func(t types.Type, name string) bool {
+		if t == nil {
+			return false
+		}
+		if pt, ok := t.(*types.Pointer); ok {
+			t = pt.Elem()
+		}
+		nt, ok := t.(*types.Named)
+		return ok && nt.Obj().Pkg() != nil && core.Rel(nt.Obj().Pkg().Path()) == "ast" && nt.Obj().Name() == name
+	}
+	isContainer := func(t types.Type) bool { return named(t, "linkedNodes") || named(t, "linkedPairs") }
+	type key struct {
+		fn  types.Object
+		idx int
+	}
+	logical := map[key]bool{}
+	var methods []*ast.FuncDecl
+	for _, fd := range core.FuncDecls(pk) {
+		if fd.Body == nil || core.RecvName(fd) != "Node" || strings.HasSuffix(p.Fset.Position(fd.Pos()).Filename, "_test.go") {
+			continue
+		}
+		methods = append(methods, fd)
+		if fd.Name.Name == "nodeAt" || fd.Name.Name == "pairAt" {
+			logical[key{p.ObjectOf(fd.Name), 0}] = true
+		}
+	}
+	params := func(fd *ast.FuncDecl) []types.Object {
+		var out []types.Object
+		for _, f := range fd.Type.Params.List {
+			for _, nm := range f.Names {
+				out = append(out, p.ObjectOf(nm))
+			}
+		}
+		return out
+	}
+	// fixpoint: a parameter passed (as a bare identifier) to a logical parameter is logical
+	for changed := true; changed; {
+		changed = false
+		for _, fd := range methods {
+			ps := params(fd)
+			ast.Inspect(fd.Body, func(n ast.Node) bool {
+				call, ok := n.(*ast.CallExpr)
+				if !ok {
+					return true
+				}
+				callee := p.Callee(call)
+				if callee == nil {
+					return true
+				}
+				for ai, a := range call.Args {
+					id, ok := ast.Unparen(a).(*ast.Ident)
+					if !ok || !logical[key{callee, ai}] {
+						continue
+					}
+					for pi, po := range ps {
+						if p.ObjectOf(id) == po && !logical[key{p.ObjectOf(fd.Name), pi}] {
+							logical[key{p.ObjectOf(fd.Name), pi}] = true
+							changed = true
+						}
+					}
+				}
+				return true
+			})
+		}
+	}
+	for _, fd := range methods {
+		ps := params(fd)
+		fn := core.FuncName(pk, fd)
+		// guard: a comparison of container.Len() with node.len()
+		lenOf := func(e ast.Expr) string {
+			e = ast.Unparen(e)
+			if id, ok := e.(*ast.Ident); ok {
+				// local defined once from a call
+				var def ast.Expr
+				ast.Inspect(fd.Body, func(n ast.Node) bool {
+					if as, ok := n.(*ast.AssignStmt); ok && len(as.Lhs) == 1 && len(as.Rhs) == 1 {
+						if l, ok := as.Lhs[0].(*ast.Ident); ok && p.ObjectOf(l) == p.ObjectOf(id) {
+							def = as.Rhs[0]
+						}
+					}
+					return true
+				})
+				if def != nil {
+					e = ast.Unparen(def)
+				}
+			}
+			call, ok := e.(*ast.CallExpr)
+			if !ok {
+				return ""
+			}
+			se, ok := call.Fun.(*ast.SelectorExpr)
+			if !ok {
+				return ""
+			}
+			t := p.TypeOf(se.X)
+			switch {
+			case se.Sel.Name == "Len" && isContainer(t):
+				return "physical"
+			case (se.Sel.Name == "len" || se.Sel.Name == "Len") && named(t, "Node"):
+				return "logical"
+			}
+			return ""
+		}
+		guarded := false
+		ast.Inspect(fd.Body, func(n ast.Node) bool {
+			be, ok := n.(*ast.BinaryExpr)
+			if !ok || (be.Op != token.NEQ && be.Op != token.EQL) {
+				return true
+			}
+			a, b := lenOf(be.X), lenOf(be.Y)
+			if (a == "physical" && b == "logical") || (a == "logical" && b == "physical") {
+				guarded = true
+			}
+			return true
+		})
+		for pi, po := range ps {
+			if !logical[key{p.ObjectOf(fd.Name), pi}] {
+				continue
+			}
+			// physical uses of this parameter
+			var phys []string
+			var ppos token.Pos
+			ast.Inspect(fd.Body, func(n ast.Node) bool {
+				call, ok := n.(*ast.CallExpr)
+				if !ok {
+					return true
+				}
+				se, ok := call.Fun.(*ast.SelectorExpr)
+				if !ok || !isContainer(p.TypeOf(se.X)) {
+					return true
+				}
+				for _, a := range call.Args {
+					if id, ok := ast.Unparen(a).(*ast.Ident); ok && p.ObjectOf(id) == po {
+						phys = append(phys, exprStr(se.X)+"."+se.Sel.Name)
+						ppos = call.Pos()
+					}
+				}
+				return true
+			})
+			cn := fn + "/index-domain:" + po.Name()
+			c.Analysed(fn)
+			switch {
+			case len(phys) == 0:
+				c.OK(cn, fd.Pos(), "logical index, never used as a slot number")
+			case guarded:
+				c.OK(cn, fd.Pos(), "logical index used as a slot number (%s) under the lengths-equal guard / translation", strings.Join(phys, ", "))
+			default:
+				c.Bad(cn, ppos, "parameter %s is a logical child index (it reaches nodeAt/pairAt) but is also passed to %s, which takes a physical slot number, and the function never compares the container's Len() with the node's len(): once a soft-deleted slot precedes the target, a different member is touched", po.Name(), strings.Join(phys, ", "))
+			}
+		}
+	}
+}
+
+// S15: sorting an object keeps the duplicate-key policy. Equal keys must keep their relative
+// order (stable sort), and because Swap re-points the hash index at whichever duplicate moved
+// last, the index has to be rebuilt (first occurrence wins) after sorting.
+
+func init() {
+	register(&core.Rule{ID: "S15", Min: 2,
+		Doc: "Sorting preserves the first-wins policy for duplicated keys: ast.linkedPairs.Sort sorts with sort.Stable (sort.Sort is not stable beyond 12 elements), and after the sort it clears and rebuilds the key index (BuildIndex, which keeps the first occurrence) whenever an index exists, because Swap overwrites the index entry of a duplicated key with the pair that moved last.",
+		Run: runS15})
+}
+
+func runS15(c *core.Ctx) {
+	p := c.Prog
+	pk := p.Pkg("ast")
+	fd := core.FuncDecl(pk, "linkedPairs", "Sort")
+	if fd == nil || fd.Body == nil {
+		c.Undecided("ast.(linkedPairs).Sort", token.NoPos, "not found")
+		return
+	}
+	c.Analysed("ast.(linkedPairs).Sort")
+	var sortPos, buildPos token.Pos
+	sortName := ""
+	ast.Inspect(fd.Body, func(n ast.Node) bool {
+		call, ok := n.(*ast.CallExpr)
+		if !ok {
+			return true
+		}
+		if o := p.Callee(call); o != nil {
+			if o.Pkg() != nil && o.Pkg().Path() == "sort" && !sortPos.IsValid() {
+				sortPos, sortName = call.Pos(), o.Name()
+			}
+			if o.Name() == "BuildIndex" && o.Pkg() != nil && core.Rel(o.Pkg().Path()) == "ast" {
+				buildPos = call.Pos()
+			}
+		}
+		return true
+	})
+	c.Check(sortName == "Stable", "ast.(linkedPairs).Sort/stable", fd.Pos(), "sorts with sort.Stable", "Sort uses sort."+sortName+" instead of sort.Stable: pairs with equal keys may be reordered (objects with more than 12 pairs), so Get, Index, iteration and MarshalJSON disagree with the order-preserving model")
+	c.Check(buildPos.IsValid() && buildPos > sortPos, "ast.(linkedPairs).Sort/index-rebuilt", fd.Pos(), "index rebuilt (first occurrence wins) after the sort", "Sort does not rebuild the key index after sorting: Swap leaves the entry of a duplicated key pointing at the pair that moved last, so Get returns the later duplicate once the object has an index (more than 16 pairs)")
+}
